@@ -242,3 +242,25 @@ class FFSP(Adapter):
         v = float(rew[r])
         return {"sched": td["schedule"][r].tolist(),
                 "reward": int(round(v)) if abs(v) < 2 ** 30 else -(2 ** 30)}
+
+
+class FFSPNoFlatten(FFSP):
+    """the same environment built with the documented generator option flatten_stages=False (machines of different
+    stages share an embedding index; the schedule dynamics must be unaffected)"""
+    tag = "ffsp_noflat"
+
+    def family(self, tier, seed=0):
+        fam = FFSP.family(self, tier, seed)
+        fam = fam[:: max(1, len(fam) // (8 if tier == "quick" else 60))]
+        for k, i in enumerate(fam):
+            i["id"] = k + 1
+        return fam
+
+    def make_env(self, inst):
+        from rl4co.envs import FFSPEnv
+
+        torch.set_num_threads(1)
+        env = FFSPEnv(generator_params={"num_stage": inst["S"], "num_machine": inst["m"], "num_job": inst["N"],
+                                        "min_time": 1, "max_time": 3, "flatten_stages": False})
+        self._env = _LoopEnv(env, self.refresh_final_mask)
+        return self._env
